@@ -7,6 +7,7 @@ use itertools::Itertools;
 use crate::check::context::clss::generic::GenericClass;
 use crate::check::context::field::generic::{GenericField, GenericFields};
 use crate::check::context::function::generic::GenericFunction;
+use crate::check::name::Name;
 use crate::check::result::{TypeErr, TypeResult};
 use crate::parse::ast::{Node, OptAST, AST};
 
@@ -78,6 +79,14 @@ fn inheritance_is_acyclic(types: &HashSet<GenericClass>) -> TypeResult<()> {
         })
     }
 
+    // A generic parameter as parent becomes whichever class it is instantiated with, also itself.
+    let generic_parent = |ty: &&GenericClass| {
+        ty.parents.iter().any(|parent| {
+            let is_parent = |name: &Name| name == &Name::from(parent.name.variant.name.as_str());
+            ty.name.generics.iter().any(is_parent)
+        })
+    };
+
     let errs: Vec<TypeErr> = types
         .iter()
         .filter(|ty| reaches(ty, &ty.name.name, types, &mut HashSet::new()))
@@ -85,6 +94,10 @@ fn inheritance_is_acyclic(types: &HashSet<GenericClass>) -> TypeResult<()> {
             let msg = format!("Cyclic inheritance: {} is its own ancestor", ty.name);
             TypeErr::new(ty.pos, &msg)
         })
+        .chain(types.iter().filter(generic_parent).map(|ty| {
+            let msg = format!("{} cannot inherit from its own generic parameter", ty.name);
+            TypeErr::new(ty.pos, &msg)
+        }))
         .collect();
 
     if errs.is_empty() {
